@@ -86,6 +86,8 @@ def script_for(execs):
         if x.get("via_save"):
             lines += ["save 0 %s" % x["via_save"], "rdestroy 0", "load 0 %s" % x["via_save"]]
         lines.append("rinfo 0")
+        for ri in x.get("disable", ()):
+            lines.append("rdisable 0 %d" % ri)
         if x.get("api") != "rules":
             lines.append("scanner 0 0")
         for s in x["scans"]:
@@ -169,7 +171,7 @@ def validate(res, prop, execs, variant, name, tolerate_d9=True):
         msg = check_rules_info(x, evs)
         if msg:
             raise yv.Broken("execution %d (%s): %s" % (xi, x.get("kind"), msg))
-        t = sg.to_trace(x["rules"], x["imports"], x["scans"], evs, maxm)
+        t = sg.to_trace(x.get("model_rules", x["rules"]), x["imports"], x["scans"], evs, maxm)
         if x.get("api") == "rules":
             for rec in t:
                 if rec["e"] == "Ret":
@@ -307,7 +309,17 @@ def c11(res, tier, seed):
                     mixed.append(sc_)
                 scans = mixed
             execs.append({"rules": rules, "scans": scans, "kind": "c11-plans", "extra_imports": ["tests"] if si % 3 == 0 else []})
+        globs = [j for j, q in enumerate(rules) if q["global"]]
+        if globs and not big:
+            # a rule disabled with yr_rule_disable is a rule whose condition is false: the scan of the real rules with some global
+            # rules disabled must be a behaviour of the model for the rule set in which those conditions are `false` (a disabled
+            # global rule keeps its namespace from matching, whether or not its strings occur in the data)
+            dis = sorted(set(r.choice(globs) for _ in range(2)))
+            mrules = [dict(q, cond=C("F")) if j in dis else q for j, q in enumerate(rules)]
+            execs.append({"rules": rules, "model_rules": mrules, "disable": dis, "scans": [scan(f, data, sizes, flags=fl) for fl in (("match", "nomatch"), ("match",))],
+                          "kind": "c11-disabled-globals"})
     run_chunks(res, "C11", execs, "asan", "c11")
+    proc_endings(res, tier, yv.workdir("C11"))
     res.cov["rule"] = ("random rule sets (1-9 rules, every 8th 66-80 rules; 1-14 namespaces; global/private/global+private; "
                        "conditions over markers, rule references, entrypoint, filesize, uint8, undefined, tests/pe modules) x 3 "
                        "report-flag settings x callback plans (abort/error at message k); distinct = (rule set, flags, plan)")
@@ -459,6 +471,51 @@ def proc_histories(res, tier, wd):
     for b in bad[:20]:
         res.violation("%s: a fresh scanner reports %s, this scanner %s (flags changed: %s)" % (owners[b][0], owners[b][1], owners[b][2], records[b]["flags_changed"]),
                       yv.save_replay("C10", "proc_history_%d" % b, {"case": owners[b][0], "record": records[b]}))
+
+
+def proc_endings(res, tier, wd):
+    """the replies of the callback end a scan of a live process (yr_scanner_scan_proc, content not modelled) as they end any
+    other scan: judged on the recorded messages and the return value alone (FuncTrace!ProcEndOK)"""
+    from checks import func
+    src = ('import "tests"\nimport "console"\n'
+           'rule t1 { condition: true }\nrule f1 { condition: false }\nglobal rule g1 { condition: filesize != 3 }\n'
+           'rule lg { condition: console.log("x") }\nrule t2 { condition: tests.constants.one == 1 }\n')
+    exe = yv.driver("plain")
+    plans = ["-"] + ["%d:%s" % (k, a) for k in range(0, 11) for a in "ea"]
+    lines = ["init", "opt iterlog 0", "opt logmatches 0", "compiler 0", "add 0 - " + yv.hx(src.encode()), "getrules 0 0", "cdestroy 0",
+             "data 1 " + yv.hx(b"some plain text")]
+    cases = []
+    for plan in plans:
+        for mode in ("proc", "mem"):
+            lines += ["note q%d" % len(cases), "scanner 0 0", "scan 0 1 %s - - %s" % (mode, plan), "sdestroy 0"]
+            cases.append((plan, mode))
+    lines += ["rdestroy 0", "finalize"]
+    run = yv.run_script(exe, lines, wd, name="c11_procend", hang=120, timeout=1200)
+    if not run.complete:
+        res.violation("process scans with callback plans: %s" % yv.crash_summary(run), yv.save_replay("C11", "procend_crash", {"crash": yv.crash_summary(run), "script": run.script_path}))
+        return
+    cur, per = None, {}
+    for e in run.events:
+        if e["e"] == "Note" and e["text"].startswith("q"):
+            cur = per.setdefault(int(e["text"][1:]), {"cbs": [], "ret": None})
+        elif cur is None: continue
+        elif e["e"] == "Cb": cur["cbs"].append([e["msg"], e.get("reply", "continue")])
+        elif e["e"] == "ScanRet": cur["ret"] = e["ret"]
+    records, owners = [], []
+    for k, (plan, mode) in enumerate(cases):
+        p = per.get(k)
+        if not p or p["ret"] is None: continue
+        records.append({"kind": "procend", "cbs": p["cbs"], "ret": p["ret"]})
+        owners.append((plan, mode, p))
+        res.count(1, ("procend", plan, mode))
+    res.cov["parts"]["scan_endings_by_entry_point"] = {"cases": len(records), "process_scans_with_messages": sum(1 for o in owners if o[1] == "proc" and o[2]["cbs"]),
+                                                       "ended_by_a_reply": sum(1 for o in owners if o[2]["cbs"] and o[2]["cbs"][-1][1] != "continue")}
+    bad, known, states = func.tlc_judge2(records, wd, "c11_procend")
+    res.cov["states"] += states; res.cov["transitions"] += states
+    res.cov["traces_validated_against_impl"] += len(records) - len(bad)
+    for b in bad[:20]:
+        res.violation("scan through entry point %s with callback plan %s: messages %s, returned %s" % (owners[b][1], owners[b][0], json.dumps(owners[b][2]["cbs"])[:300], owners[b][2]["ret"]),
+                      yv.save_replay("C11", "procend_%d" % b, {"plan": owners[b][0], "mode": owners[b][1], "record": records[b]}))
 
 
 def c10(res, tier, seed):
